@@ -1,5 +1,6 @@
 """Driver: the same tree flattened under two option sets; equality/hash of the two treespecs (C06)."""
 import json, os, sys, multiprocessing as mp
+from harness.drivers import pmap
 import optree
 from harness import vuniv as U
 
@@ -57,8 +58,8 @@ def hash_after_failure():
 def main():
     inp, outp = sys.argv[1], sys.argv[2]
     lines = list(open(inp))
-    with mp.Pool(16, initializer=U.setup_world) as pool, open(outp, 'w') as fh:
-        for res in pool.imap(work, lines, chunksize=16):
+    with open(outp, 'w') as fh:
+        for res in pmap(work, lines, init=U.setup_world, chunksize=16):
             for c in res:
                 fh.write(c + '\n')
         U.setup_world()
